@@ -164,7 +164,7 @@ def frozen_today(today):
 _LIT = re.compile(r"'([^'\n\\]{1,80})'|\"([^\"\n\\]{1,80})\"")
 
 
-def _candidates_for(mod):
+def _candidates_for(mod, _nested=False):
     """string literals that may be numbers of this module: its own source and its test file"""
     out = []
     seen = set()
@@ -174,6 +174,42 @@ def _candidates_for(mod):
     tpath = os.path.join(REPO, 'tests', tname)
     if os.path.exists(tpath):
         paths.append(tpath)
+    try:    # inputs exhibited by proofs and minimised past failures (committed; never written at run time)
+        with open(os.path.join(VERIF, 'tools', 'search', 'proof_witnesses.json')) as f:
+            for s in json.load(f).get(mod.__name__, []):
+                if s not in seen:
+                    seen.add(s)
+                    out.append(s)
+    except (OSError, ValueError):
+        pass
+    if hasattr(mod, '_get_cc_module') and not _nested:
+        # a wrapper that dispatches on a country prefix: the samples of every constituent, with and without the
+        # prefix (the wrapper's own documentation names only a few countries)
+        for cc in sorted(os.listdir(os.path.join(REPO, 'stdnum'))):
+            if not os.path.isfile(os.path.join(REPO, 'stdnum', cc, '__init__.py')):
+                continue
+            for kind in ('vat', 'iban'):
+                try:
+                    sub = getattr(importlib.import_module('stdnum.%s' % cc), kind, None)
+                    if sub is None:
+                        sub = importlib.import_module('stdnum.%s.%s' % (cc, kind))
+                except Exception:   # noqa: B902
+                    continue
+                n = 0
+                for x in _candidates_for(sub, _nested=True):
+                    try:
+                        ok = sub.is_valid(x) is True
+                    except Exception:   # noqa: B902
+                        ok = False
+                    if not ok:
+                        continue
+                    n += 1
+                    if n > 3:
+                        break
+                    for y in (x, cc.rstrip('_').upper() + x):
+                        if y not in seen:
+                            seen.add(y)
+                            out.append(y)
     for path in paths:
         try:
             src = open(path, encoding='utf-8').read()
@@ -422,7 +458,7 @@ def _extremal_valid(mod, valid, budget=250000, max_groups=120):
 
 
 _corpus = None
-CORPUS_VERSION = 2      # bump when the content of the corpus changes (the cache is keyed by version and tree hash)
+CORPUS_VERSION = 5      # bump when the content of the corpus changes (the cache is keyed by version and tree hash)
 _KEEP_CACHES = 60
 
 
@@ -435,6 +471,11 @@ def corpus(max_per_module=400):
         return _corpus
     os.makedirs(WORK, exist_ok=True)
     key = tree_hash()
+    try:
+        with open(os.path.join(VERIF, 'tools', 'search', 'proof_witnesses.json'), 'rb') as f:
+            key = hashlib.sha256(key.encode() + f.read()).hexdigest()
+    except OSError:
+        pass
     cache = os.path.join(WORK, 'corpus-v%d-%s.json' % (CORPUS_VERSION, key[:16]))
     try:
         with open(cache) as f:
